@@ -97,6 +97,10 @@ def _dynamic(node, patch_):
     if not member:
         raise Exception("Member not found: %s %s" % (node.name, patch_))
 
+    sizer_found = len(tuple(x for x in node.members[:i] if x.name == len_name))
+    if not sizer_found:
+        raise Exception("Array len member not found: %s %s" % (node.name, patch_))
+
     mem = node.members[i]
     mem.bound = len_name
     mem.size = None
